@@ -331,6 +331,16 @@ Definition unrequested (r : request) (t : path) (m : lfs) (p : path) : Prop :=
   (r_images r = false ∧ under (t ++ [IMAGES_DIR]) p) ∨
   (∃ nr, nr ∈ layer_entries_of m t ∧ should_load (r_filter r) nr.1 nr.2 = false ∧ under (lex t nr.2) p).
 
+(** the directory of every default layer (last component [glyphs]) is written exactly [glyphs]
+    in layercontents.plist, not e.g. [./glyphs]: the complement is the class of finding F23 *)
+Definition default_plain (m : lfs) (t : path) : Prop :=
+  Forall (λ nr, file_name_of t nr.2 = Some DEFAULT_GLYPHS_DIRNAME → nr.2 = [Normal DEFAULT_GLYPHS_DIRNAME])
+         (layer_entries_of m t).
+Definition KnownClass_F23 (m : lfs) (t : path) : Prop := ¬ default_plain m t.
+Definition default_plainb (m : lfs) (t : path) : bool :=
+  forallb (λ nr, negb (bool_decide (file_name_of t nr.2 = Some DEFAULT_GLYPHS_DIRNAME))
+                 || bool_decide (nr.2 = [Normal DEFAULT_GLYPHS_DIRNAME])) (layer_entries_of m t).
+
 (** a UFO whose layer directories and glif paths are distinct plain names that do not collide
     with the files of other parts *)
 Definition ufo_reserved : list string :=
